@@ -128,8 +128,34 @@ def leanchecker(module):
     return rc == 0, (out + err)[-2000:]
 
 
+DRIVER_DIR = None   # set by the runner: private copies of the drivers built for this run
+
+
 def driver_path(engine):
+    if DRIVER_DIR and os.path.exists(os.path.join(DRIVER_DIR, "drv_" + engine)):
+        return os.path.join(DRIVER_DIR, "drv_" + engine)
     return os.path.join(LEAN, ".lake", "build", "bin", "drv_" + engine)
+
+
+def snapshot_drivers(engines):
+    """copy the freshly built drivers into a directory of this process: concurrent runs (e.g. against a mutated
+    scratch copy of the repository) rebuild the shared ones"""
+    global DRIVER_DIR
+    import shutil
+    d = os.path.join(BUILD, "drivers-%d" % os.getpid())
+    os.makedirs(d, exist_ok=True)
+    for e in engines:
+        src = os.path.join(LEAN, ".lake", "build", "bin", "drv_" + e)
+        if os.path.exists(src):
+            shutil.copy2(src, os.path.join(d, "drv_" + e))
+    DRIVER_DIR = d
+    return d
+
+
+def drop_drivers():
+    import shutil
+    if DRIVER_DIR:
+        shutil.rmtree(DRIVER_DIR, ignore_errors=True)
 
 
 def run_driver(engine, text, timeout=600, args=()):
